@@ -34,6 +34,9 @@ def LegalRun (s : State) : List Op → Prop
   | [] => True
   | op :: ops => Legal s op ∧ LegalRun (step s op) ops
 
+/-- `s` is the state after some legal schedule of atomic steps from the empty list. -/
+def Reachable (s : State) : Prop := ∃ ops, LegalRun init ops ∧ s = run init ops
+
 instance (s : State) (op : Op) : Decidable (Legal s op) := by
   cases op <;> simp only [Legal] <;> infer_instance
 
